@@ -140,7 +140,7 @@ func runAwaitCase(c awaitCase) []string {
 	select {
 	case res := <-done:
 		_ = res
-	case <-time.After(300 * time.Millisecond):
+	case <-time.After(5 * time.Second): // generous: the relay and the receiver poll every millisecond, but the machine may be busy
 		if reached {
 			problems = append(problems, fmt.Sprintf("await-not-released: the run reached status %d but Await has not returned", c.Awaited))
 		}
